@@ -5,10 +5,14 @@ Import ListNotations.
 Local Open Scope string_scope.
 Local Open Scope Z_scope.
 
-(* T.1  Conservation, for every asset and EVERY history of well-formed operations with unique record keys, from any
+(* T.1  Conservation, for every asset and EVERY history of well-formed operations (deposit, withdraw, delegate, undelegate,
+   genesis load, slash, hold changes, block ends, native-restaking balance adjustments = UpdateNSTBalance, native-token
+   delegation) with unique record keys, from any
    state satisfying the index invariant: the value held by the ledger (withdrawable balances + operator pools +
-   amounts owed by pending undelegation records) moves exactly by deposits - withdrawals - slashed - (amounts of
-   overwritten records, none when keys are fresh) that happened during the history. *)
+   amounts owed by pending undelegation records) moves exactly by deposits - withdrawals + positive native-restaking
+   adjustments - amounts removed by negative ones - slashed - (amounts of overwritten records, none when keys are fresh)
+   that happened during the history ([net] sums the ghost events GDep, GWdr, GNstP, GNstM, GSl, GLost, GEscIn, GEscOut;
+   a GNstM event is booked to the asset of the row / record / pool it was taken from). *)
 Theorem C01_conservation : forall ops s0 a, idx_inv s0 -> hist_ok s0 ops = true ->
   value a (run ops s0) = value a s0 + (net a (glog (run ops s0)) - net a (glog s0)).
 Proof. exact conservation_all. Qed.
@@ -92,4 +96,19 @@ Definition ex_native_ops : list op :=
 Example ex_native : let s := run ex_native_ops ex_native_s0 in
   hist_ok ex_native_s0 ex_native_ops = true /\ forallb esc_op ex_native_ops = true /\
   escrow s = 450 /\ value native_id s = 300 /\ bank_bal s "acct" = 550.
+Proof. vm_compute. repeat split; reflexivity. Qed.
+
+(* non-vacuity with a native-restaking balance decrease that ends INSIDE a pending undelegation: withdrawable 4000, first
+   record 1000 eaten completely, 300 of the second record (700 -> 400), then an increase of 250 and completion *)
+Definition ex_nst_ops : list op :=
+  [Deposit "s1" "a1" 10000; Delegate "s1" "a1" "o1" 6000; Undelegate "s1" "a1" "o1" 1000 2 "t1";
+   Undelegate "s1" "a1" "o1" 700 3 "t2"; NstBalance "s1" "a1" (-5300); NstBalance "s1" "a1" 250;
+   EndBlock; EndBlock; EndBlock; EndBlock; EndBlock; EndBlock; EndBlock; EndBlock; EndBlock; EndBlock; EndBlock].
+Example ex_nst :
+  let s0 := empty_st 1 ["o1"] [] ["a1"] in
+  let s5 := run (firstn 5 ex_nst_ops) s0 in let s := run ex_nst_ops s0 in
+  hist_ok s0 ex_nst_ops = true /\
+  option_map ur_act (sget (ur s5) "o1/0x1/0x2/t1") = Some 0 /\ option_map ur_act (sget (ur s5) "o1/0x1/0x3/t2") = Some 400 /\
+  option_map sa_wd (sget (sa s5) "s1/a1") = Some 0 /\ value "a1" s5 = 10000 - 5300 /\
+  value "a1" s = 10000 - 5300 + 250 /\ net "a1" (glog s) = 4950 /\ option_map sa_wd (sget (sa s) "s1/a1") = Some 650.
 Proof. vm_compute. repeat split; reflexivity. Qed.
